@@ -113,6 +113,12 @@ pub fn expand(input: &DeriveInput, trait_name: &'static str) -> Result<TokenStre
         let error = quote! {
             derive_more::TryIntoError<#reference_with_lifetime #input_type #ty_generics>
         };
+        // `Self` in a field type means the deriving type, not the tuple implemented for.
+        let self_ty = quote! { #input_type #ty_generics };
+        let original_types: Vec<_> = original_types
+            .iter()
+            .map(|ty| crate::utils::replace_self(ty, &self_ty))
+            .collect();
 
         let try_from = quote! {
             #[allow(deprecated)] // omit warnings on deprecated fields/variants
